@@ -53,11 +53,16 @@ def gen_case(rng: random.Random, tier: str) -> dict:
             fs = [rng.choice(["2", "3", "0.5", "10"])] + fs
         terms.append(fs)
     n = 6
+    entry = rng.choice(["formula", "formula", "spec", "fitted_spec", "structured", "structured_specs"])
+    if entry == "fitted_spec" and terms and rng.random() < 0.6:  # something fitted (a mean) survives in the gradient
+        t = rng.choice(terms)
+        if "center(p)" not in t and not any(set(u) == set(t + ["center(p)"]) for u in terms):
+            t.append("center(p)")
     return {
         "terms": terms, "icpt": rng.random() < 0.6, "ordering": rng.choice(["degree", "none", "sort"]),
         "wrt": [rng.choice(V + ["q"] + (PYF if any(f in PYF for t in terms for f in t) else []) + 2 * [f for t in terms for f in t if f in ODD]) for _ in range(rng.randint(1, 3))],
         "data": {**{v: [float(rng.randint(-4, 4)) for _ in range(n)] for v in V + ODD}, "p": [float(rng.randint(1, 5)) for _ in range(n)]},
-        "entry": rng.choice(["formula", "formula", "spec", "fitted_spec", "structured", "structured_specs"]),
+        "entry": entry,
     }
 
 
@@ -112,6 +117,11 @@ def judge(case) -> Outcome:
                     g2 = dense(model_matrix(ds[0], pd.DataFrame(case["data"]), output="numpy", ensure_full_rank=False, context={}))
                 if g1.shape != g2.shape or not np.allclose(g1, g2):
                     out.fail("c20.fitted_spec_gradient", f"{f!r} wrt {wrt}: gradient of the fitted spec materializes to {g1.shape} != differentiated formula {g2.shape} (or values differ)")
+                # the gradient of a *fitted* spec keeps what was fitted (means, levels): on a selection of rows it gives those rows
+                with quiet():
+                    g3 = dense(dspec.get_model_matrix(pd.DataFrame(case["data"]).iloc[[4, 1, 2]], output="numpy", ensure_full_rank=False))
+                if g3.shape != g1[[4, 1, 2]].shape or not np.allclose(g3, g1[[4, 1, 2]]):
+                    out.fail("c20.fitted_spec_gradient", f"{f!r} wrt {wrt}: gradient of the fitted spec on rows [4, 1, 2] gives {g3.tolist()} != those rows of its matrix on the training data {g1[[4, 1, 2]].tolist()}")
                 out.see("fitted_gradients_materialized")
             except Exception as e:  # noqa: BLE001
                 out.fail("c20.fitted_spec_gradient", f"{f!r} wrt {wrt}: materializing the gradient of a fitted spec: {type(e).__name__}: {str(e)[:120]}")
